@@ -443,6 +443,62 @@ def extract_maskify(status):
         return "def maskify : Bool → Tri → Val × Val := fun _ _ => (some 7, some 7)  -- extraction failed"
 
 
+
+def extract_layer_scalar(status):
+    """layering._layer_scalar run on every small NaN-free receiver (initial value in {0, 1}, step changes +-1 at a subset of
+    {1, 2, 3} with at most two entries) x every call (start, end in {None, 1, 2, 3}, value in {1, -1}); the outcome is
+    the new initial value and the new step-change series"""
+    try:
+        st = _fresh_import()
+        import itertools
+        import pandas as pd
+        pts = [1, 2, 3]
+        receivers = []
+        for init in (0, 1):
+            receivers.append((init, []))
+            for p in pts:
+                for d in (1, -1):
+                    receivers.append((init, [(p, d)]))
+            for p, q in itertools.combinations(pts, 2):
+                for d, e in itertools.product((1, -1), repeat=2):
+                    receivers.append((init, [(p, d), (q, e)]))
+        rows = []
+        for init, ds in receivers:
+            for s0 in (None, 1, 2, 3):
+                for e0 in (None, 1, 2, 3):
+                    for v in (1, -1):
+                        f = st.Stairs(initial_value=init)
+                        if ds:
+                            f._data = pd.DataFrame({"delta": [float(d) for _, d in ds]}, index=[p for p, _ in ds])
+                            f._valid_deltas = True
+                        g = f.layer(s0, e0, v)
+                        out = [] if g._data is None else [(int(k), x) for k, x in g._get_deltas().items()]
+                        rows.append((init, ds, s0, e0, v, g.initial_value, out))
+        status["layerScalar"] = f"ok ({len(rows)} cases)"
+
+        def opt(x):
+            return "none" if x is None else f"some {x}"
+
+        def dl(l):
+            return "[" + ", ".join(f"({p}, {_lean_val(float(d))})" for p, d in l) + "]"
+        ty = "List ((Val × List (Int × Val) × Option Int × Option Int × Rat) × (Val × List (Int × Val)))"
+        out = ["/-- (initial value, step changes, start, end, value) ↦ (new initial value, new step changes); in chunks, a single",
+               "literal of this size exceeds the elaborator's default budget -/"]
+        chunks = [rows[k:k + 80] for k in range(0, len(rows), 80)]
+        for ci, ch in enumerate(chunks):
+            out.append(f"def layerScalarCases{ci} : {ty} := [")
+            out.append(",\n".join(
+                f"  (({_lean_val(float(i))}, {dl(ds)}, {opt(s0)}, {opt(e0)}, {v}), ({_lean_val(float(ni))}, {dl(o)}))"
+                for i, ds, s0, e0, v, ni, o in ch))
+            out.append("]")
+        out.append(f"def layerScalarCases : List ({ty}) := [" + ", ".join(f"layerScalarCases{ci}" for ci in range(len(chunks))) + "]")
+        return "\n".join(out)
+    except Exception as exc:  # noqa: BLE001
+        status["layerScalar"] = "failed: " + repr(exc)[:200]
+        return ("def layerScalarCases : List (List ((Val × List (Int × Val) × Option Int × Option Int × Rat) × (Val × List (Int × Val)))) := "
+                "[[((none, [], none, none, 1), (some 7, []))]]  -- extraction failed")
+
+
 HEADER = """import SCModel.Model.Stats
 /-!
 # SCModel.Generated.Tables — REGENERATED from /repo's source on every run by tools/extract_tables.py.
@@ -467,7 +523,8 @@ def regenerate():
     parts = [extract_get_lims(status), extract_sample_side(status), extract_slicer_endpoint(status),
              extract_scalar_logic(status), extract_mismatch_cond(status), extract_clip_sides(status),
              extract_layer_skeleton(status), extract_ctor_census(status),
-             extract_form_conversions(status), extract_remove_redundant(status), extract_maskify(status)]
+             extract_form_conversions(status), extract_remove_redundant(status), extract_maskify(status),
+             extract_layer_scalar(status)]
     text = HEADER + "\n\n".join(parts) + "\n\nend SC.Generated\n"
     os.makedirs(os.path.dirname(OUT), exist_ok=True)
     old = open(OUT).read() if os.path.exists(OUT) else None
